@@ -161,8 +161,9 @@ def make_h(tier):
         at_end = ctx.flag("run_at_end_of_last_file") if lang == "python" else False
         minocc = ctx.int("min_occurrences", 1)
         decoys = ctx.flag("decoy_files_with_same_lines_in_other_order") if (style == "plain" or not quick) else False
+        imports = ctx.flag("every_file_starts_with_the_same_multi_line_import") if (style == "plain" and not decoys and (off == 0 or not quick)) else False
         naming = ctx.pick("file_naming", ("distinct-names-one-directory", "same-name-in-different-directories")) \
-            if (style in ("plain", "method") or not quick) else "distinct-names-one-directory"
+            if (style in ("plain", "method") or (not quick and style in ("indented", "callback", "commented"))) else "distinct-names-one-directory"
         files = {}
         for t in layout.replace("-only-once", "").split("+"):
             files[t] = files.get(t, 0) + 1
@@ -175,6 +176,11 @@ def make_h(tier):
                 places = [off + i] + [2] * (cnt - 1)
                 L, occ = build_file(lang, t.lower(), places, r, style if (i == 0 or style == "exported-declarations") else "plain",
                                     run_at_end=at_end and i == len(files) - 1)
+                if imports:
+                    head = ["from shared.lib import (", "    alpha,", "    beta,", "    gamma,", ")"] if lang == "python" else \
+                        ["import {", "  alpha,", "  beta,", "  gamma,", "} from \"./lib\";"]
+                    L = head + L
+                    occ = [(a + len(head), b + len(head)) for a, b in occ]
                 p = d / f"mod_{t.lower()}{ext}"
                 if naming != "distinct-names-one-directory":
                     p = d / f"pkg_{t.lower()}" / f"helpers{ext}"
@@ -214,6 +220,15 @@ def make_h(tier):
             ign.clear_ignore_parser_cache()
             cfg = {"dry": {"enabled": True, "min_duplicate_lines": w, "min_occurrences": minocc,
                            "min_duplicate_tokens": 1, "detect_duplicate_constants": False}}
+            # the threshold may be given for the files' language only; another language's section never applies
+            where = ctx.pick("min_occurrences_given_in", ("section", "own-language-section", "section-next-to-another-language")) \
+                if (style == "plain" and not decoys and not imports and (off == 0 or not quick)) else "section"
+            sibling = {"python": "typescript", "typescript": "javascript", "javascript": "typescript"}[lang]
+            if where == "own-language-section":
+                cfg["dry"]["min_occurrences"] = 1 + m         # would silence everything if it applied
+                cfg["dry"][lang] = {"min_occurrences": minocc}
+            elif where == "section-next-to-another-language":
+                cfg["dry"][sibling] = {"min_occurrences": 1 + m}
             o = Orchestrator(project_root=d, config=cfg)
             vs = [v for v in o.lint_files([Path(p) for p in sorted(occs)]) if v.rule_id == "dry.duplicate-code"]
         finally:
